@@ -257,6 +257,19 @@ theorem C16_read_spec (w : World ℝ) (s : St ℝ) (h : Coherent w s) :
   cases strategy <;> cases cCustom <;> cases cMean <;> cases cMode <;>
     simp_all [evalCore, readSpec]
 
+/-- **C16 (read after any history).** After ANY history from a fresh quantity, a read returns
+    `readSpec` of the settings and the samples the user can retrieve at that moment. -/
+theorem C16_read_after_history (w : World ℝ) (g : Nat) (ops : List (Op ℝ)) :
+    let s := run w (MCS.init g) ops
+    ∃ id, (ensure s).sim = some id ∧ (step w (ensure s) Op.samples).2 = Out.sampleSet id ∧
+      (step w s Op.read).2 = Out.pair (readSpec w (ensure s) id).1 (readSpec w (ensure s) id).2 := by
+  intro s
+  obtain ⟨id, hid, hr⟩ := C16_read_spec w s (C16_cache_coherent w g ops)
+  refine ⟨id, hid, ?_, hr⟩
+  have hidem : ∀ t : St ℝ, t.sim = some id → ensure t = t := by
+    intro t ht; simp [ensure, ht]
+  simp only [step, hidem _ hid, hid, Option.getD_some]
+
 /-- the operations that must keep the simulation -/
 def keepsSim : Op ℝ → Prop
   | .setSize k => k < 0          -- a rejected request changes nothing
